@@ -264,7 +264,7 @@ macro_rules! impl_sum {
 
         impl<'a> std::iter::Sum<&'a $rhs> for $lhs {
             fn sum<I: Iterator<Item = &'a $rhs>>(iter: I) -> $rhs {
-                iter.sum()
+                iter.copied().sum()
             }
         }
     };
@@ -289,7 +289,7 @@ macro_rules! impl_product {
 
         impl<'a> std::iter::Product<&'a $rhs> for $lhs {
             fn product<I: Iterator<Item = &'a $rhs>>(iter: I) -> $rhs {
-                iter.product()
+                iter.copied().product()
             }
         }
     };
